@@ -6,14 +6,14 @@ CONSTANTS
   SlotOf <- MCSlotOf
   MaxCmds = 3
   MaxHops = 3
-  WithMigration = TRUE
+  WithMigration = FALSE
   EmptyTableAtStart = FALSE
-  AtomicAsk = FALSE
+  AtomicAsk = TRUE
   WithFailover = FALSE
   FixRefreshOnDialError = TRUE
-  StepwiseRefresh = FALSE
-  ClearBeforeFill = FALSE
-  MaxTicks = 0
+  StepwiseRefresh = TRUE
+  ClearBeforeFill = TRUE
+  MaxTicks = 1
   LazyConnect = FALSE
   AsyncRedirectDial = FALSE
   TrackOrder = FALSE
